@@ -74,7 +74,14 @@ def opsC18 : List (String × Op) := [
             ("impl.link_ok", ofBool (linkOK ds depth implL)),
             ("impl.refine_ok", ofBool refine),
             ("self.ok", ofBool (subOK ds outs lab && digitsOK depth lab && linkOK ds depth lab)),
+            -- theorem `pfaf_refine`: the model's map for `depth - 1` is the model's map for `depth` divided by 10
+            ("self.refine_ok", ofBool (if depth ≤ 1 then true else
+              match subbasinsPfafstetter pits ds seq usMain uparea mask (depth - 1) with
+              | none => false
+              | some (sh, _, _, _) => refineOK sh lab)),
             ("usok", ofBool (usMainOK ds usMain)),
+            -- hypotheses of theorem `pfaf_ok` (sound by `pfPreOK_sound`): with them `model.ib_ok` is 1 by the theorem
+            ("pre_ok", ofBool (pfPreOK pits ds seq usMain uparea)),
             ("topo", ofBool (isTopo ds seq))]),
   ("c18_stream_order_classic", fun a => do
     let ds ← a.nats "ds"
